@@ -238,6 +238,18 @@ theorem give_invA (s : St) (t f : Nat) (x : Item) (h : InvA s) (hw : s.waiting f
           (fun tk htk => by simp [Pending.tk] at htk ⊢; grind)
       · exact h
 
+theorem giveNB_invA (s : St) (f : Nat) (x : Item) (h : InvA s) : InvA (giveNB s f x) := by
+  unfold giveNB
+  split
+  · exact h
+  · split
+    · rename_i r rs hr
+      unfold InvA tickets at *
+      rw [hr] at h
+      exact h.sub (fun q => by simp [List.countP_append, List.countP_cons, Pending.tk, Msg.tk]; omega)
+        (fun tk htk => by simp [Pending.tk, Msg.tk] at htk ⊢; grind)
+    · exact h
+
 theorem take_invA (s : St) (t f : Nat) (h : InvA s) (hw : s.waiting f = false) : InvA (take s t f) := by
   unfold take
   split
@@ -405,6 +417,10 @@ theorem give_invO (s : St) (t f : Nat) (x : Item) (ho : InvO s) : InvO (give s t
       · simp [outF, handedTo, hq] at this ⊢
         exact this
     · split <;> (intro q; have := ho q; simpa only [gotSeq_append, gotSeq_gave, List.append_nil] using this)
+
+theorem giveNB_invO (s : St) (f : Nat) (x : Item) (ho : InvO s) : InvO (giveNB s f x) := by
+  rw [giveNB_eq]
+  exact give_invO { s with limit := s.items.length + 1 } 0 f x ho
 
 theorem outQ_single_item (q t f c : Nat) (x : Item) : outQ q [⟨t, f, c, .item x⟩] = if f = q then [x] else [] := by
   by_cases h : f = q <;> simp [outQ, h, Task.item]
@@ -633,6 +649,7 @@ theorem step_abandons_mono (cfg : Cfg) (s : St) (a : Act) : s.abandons ≤ (step
     show s.abandons ≤ (resume cfg s i).abandons
     unfold resume runTask
     (repeat' split) <;> exact Nat.le_refl _
+  | giveNB f x => show s.abandons ≤ (giveNB s f x).abandons; unfold giveNB; (repeat' split) <;> exact Nat.le_refl _
 
 theorem run_abandons_mono (cfg : Cfg) : ∀ (acts : List Act) (s : St), s.abandons ≤ (run cfg acts s).abandons := by
   intro acts
@@ -684,6 +701,9 @@ theorem step_clean (cfg : Cfg) (s : St) (a : Act) (hz : (step cfg s a).abandons 
   | close t =>
     have hs : (close s t).staleReads = s.staleReads := by unfold close; (repeat' split) <;> rfl
     exact ⟨close_invA s t h.a, close_invO s t h.o, hfifo hs, by show (close s t).staleReads = 0; rw [hs]; exact h.stale⟩
+  | giveNB f x =>
+    have hs : (giveNB s f x).staleReads = s.staleReads := by unfold giveNB; (repeat' split) <;> rfl
+    exact ⟨giveNB_invA s f x h.a, giveNB_invO s f x h.o, hfifo hs, by show (giveNB s f x).staleReads = 0; rw [hs]; exact h.stale⟩
   | resume i =>
     have hs : (resume cfg s i).staleReads = s.staleReads := (resume_frame cfg s i).2.2.2.2.2.2
     exact ⟨resume_invA cfg s i h.a, resume_invO cfg s i h.a h.o, hfifo hs, by show (resume cfg s i).staleReads = 0; rw [hs]; exact h.stale⟩
@@ -740,6 +760,10 @@ theorem step_logOK (cfg : Cfg) (s : St) (a : Act) (h : gaveSeq s.log = s.sent) :
     unfold handle
     (repeat' split) <;> first | exact h | (rw [(cb_log cfg _ _).1, (cb_log cfg _ _).2]; exact h)
   | close t => show gaveSeq (close s t).log = (close s t).sent; unfold close; split <;> exact h
+  | giveNB f x =>
+    show gaveSeq (giveNB s f x).log = (giveNB s f x).sent
+    unfold giveNB
+    (repeat' split) <;> first | exact h | (simp only [gaveSeq_append, h]; rfl)
   | resume i =>
     show gaveSeq (resume cfg s i).log = (resume cfg s i).sent
     unfold resume runTask
